@@ -69,6 +69,22 @@ def run(ctx):
                                             project=lambda ds: proglib.keyset(ds), drivers=("binary",))
             nreal += progcheck.real_drivers(ctx, progcheck.sample(dirs, 12 if thorough else 3, ctx.seed + 2), None, rep, cfg=c, env_cfg=contrary,
                                             project=lambda ds: proglib.keyset(ds), drivers=("vet",))
+    # an exclude-paths entry is a substring of the *file path*: a directory above the module root that matches an entry excludes every
+    # file of the module (the import path does not mention it)
+    if not ctx.violations:
+        scs_viol = [sc for sc in scs if sc["sc"]["cls"] == "sibling" and sc["sc"]["viol"] and not sc["sc"]["ign"] and not sc["sc"]["scan"] and sc["sc"]["paths"] == []]
+        for i, sc in enumerate(scs_viol[:2]):
+            prog, exp, _ = gen_files.build_files(sc, "C14_rootdir_%d" % i)
+            for drv, token in (("binary", "mod_"), ("vet", "vet_")):
+                c = {"exclude_paths": token}
+                r = proglib.run_binary(ctx, prog, cfg=c) if drv == "binary" else proglib.run_vet(ctx, prog, cfg=c)
+                nreal += 1
+                got = proglib.keyset(r.get("diags") or [])
+                if (r.get("fail") or got) and len(ctx.violations) < 3:
+                    ctx.violation("exclude-paths=%s names the directory above the module root (every file path contains it), %s driver: expected no "
+                                  "diagnostics, observed %s %s" % (token, drv, sorted(got)[:5], (r.get("fail") or "")[:200]),
+                                  {"kind": "program", "program": prog, "expected": [], "observed": sorted(got), "cfg": c, "cats": [], "driver": drv,
+                                   "note": "the scratch module is written to a directory called %s<hash>" % token})
     return ctx.finish("model_checking", {
         "traces_validated_against_impl": run_n + nreal,
         "samples": samples,
@@ -76,7 +92,7 @@ def run(ctx):
         "distinct_nontrivial": nontrivial,
         "rule": "terminal states of Files.tla: 7 file classes (regular sibling, in-package _test.go, external test package, package under a *testdata* "
                 "directory, package under zzgen/, sibling files named *_zzgen.go sorting after / before a.go) x content flags (declares an annotation used "
-                "by a.go, contains violations, starts with a file-level @ignore) x scan-tests x 4 exclude-paths values; each is concretised and "
+                "by a.go, contains violations, starts with a file-level @ignore) x scan-tests x 6 exclude-paths values (incl. a nested pair of entries); each is concretised and "
                 "analysed in process under that configuration (one harness process per configuration), a sample by the real binary, a second sample with the "
                 "configuration given by flags while the environment says the opposite, and packages under excluded directories under go vet (tool started in the package directory); all "
                 "diagnostics of all packages are compared; distinct_nontrivial = scenarios whose file is skipped and carries annotations or violations",
